@@ -93,6 +93,7 @@ def check(ctx):
     ctx.rule("R2", "path completer and bash-completion bridge decide quoting through the one shared helper (no drifting private copies)", floor=2)
     ctx.rule("R5", "the tokenizer's column scans make progress on every cycle (the analyser, which runs it in tolerant mode over any text, returns)", floor=2)
     ctx.rule("R4", "the completion-context analyser's line-start table agrees with the lexer's notion of a line (\\n only)", floor=1)
+    ctx.rule("R6", "the names the path completer offers are the names the file system reports: the glob walker's listing helper returns os.listdir entries themselves (filtered or sorted at most, never rewritten)", floor=1)
     ctx.rule("R3", "both emitters escape the closing delimiter in force, on every path, after backslash doubling and before the assembly start+name+end", floor=10)
 
     cq = ctx.repo.module(CQ)
@@ -223,9 +224,15 @@ def check(ctx):
             ok = not any(a_ in seen_ for a_ in asm_in)
         ctx.ob("R3", site, f"every path to the assembly passes the escape of `{CLOSE}` unless there is nothing to escape (empty delimiter, or `{CLOSE} in <text>` false)", ok, key=f"{fname}|escape-skipped", where=loc(anode.ast))
         # nothing rebinds the delimiter (or the name) between the escape and the assembly
-        for e in esc_nodes:
-            seen = cfg.reach([e], stop=lambda x: x is anode)
-            bad = [x for x in seen if x is not anode and x.kind == "stmt" and isinstance(x.ast, (ast.Assign, ast.AugAssign)) and any(isinstance(t, ast.Name) and t.id == CLOSE for tt in (x.ast.targets if isinstance(x.ast, ast.Assign) else [x.ast.target]) for t in ast.walk(tt))]
+        # (within one iteration: the next path starts with a fresh delimiter; an arm of the assembly that does not append
+        # the delimiter at all has nothing to protect)
+        for e0 in esc_nodes:
+            in_loop = loop_ is not None and e0.ast is not None and lexically_inside(e0.ast, loop_)
+            g_ = inner_ if in_loop else cfg
+            e = e0
+            e_in = next((x for x in g_.nodes if x.ast is e0.ast), e0)
+            seen = g_.reach([e_in], stop=lambda x: x.ast is anode.ast)
+            bad = [x for x in seen if x.ast is not anode.ast and x.kind == "stmt" and isinstance(x.ast, (ast.Assign, ast.AugAssign)) and any(isinstance(t, ast.Name) and t.id == CLOSE for tt in (x.ast.targets if isinstance(x.ast, ast.Assign) else [x.ast.target]) for t in ast.walk(tt))]
             ctx.ob("R3", site, f"`{CLOSE}` is not rebound between the escape and the assembly", not bad, key=f"{fname}|delimiter-rebound-after-escape", where=loc(bad[0].ast) if bad else loc(e.ast))
             # the escape text is a function of the delimiter *in force at the escape*
             c = repl_of(e, CLOSE)
@@ -363,6 +370,53 @@ def check(ctx):
             path=zcfg.fmt_path(zcfg.path_to(seen, w), limit=22) if cyc else None,
         )
 
+    _listing_verbatim(ctx)
+
+
+def _listing_verbatim(ctx):
+    tl = ctx.repo.module("xonsh/tools.py")
+    outer = tl.func("_case_insensitive_iglob")
+    st = "xonsh/tools.py:_case_insensitive_iglob"
+    LIST = ("os.listdir", "os.scandir", "listdir", "scandir")
+    helpers = [n for n in ast.walk(outer) if isinstance(n, (ast.FunctionDef, ast.Lambda)) and n is not outer and any(call_name(c) in LIST for c in ast.walk(n) if isinstance(c, ast.Call))]
+    scopes = helpers or [outer]
+    n_ret = 0
+    for h in scopes:
+        if isinstance(h, ast.Lambda):
+            raise AnalysisError(f"{st}: listing helper is a lambda")
+        defs = df.all_defs(h)
+
+        def verbatim(e, seen=frozenset()):
+            """e evaluates to a sequence whose elements are listing entries themselves"""
+            if isinstance(e, ast.Constant) and e.value is None:
+                return True
+            if isinstance(e, ast.Call) and call_name(e) in LIST:
+                return True
+            if isinstance(e, ast.Name):
+                if e.id in seen:
+                    return True
+                ds = defs.get(e.id, [])
+                return bool(ds) and all(d.kind == "assign" and d.value is not None and verbatim(d.value, seen | {e.id}) for d in ds)
+            if isinstance(e, (ast.ListComp, ast.GeneratorExp, ast.SetComp)) and len(e.generators) == 1:
+                g = e.generators[0]
+                return isinstance(g.target, ast.Name) and isinstance(e.elt, ast.Name) and e.elt.id == g.target.id and verbatim(g.iter, seen)
+            if isinstance(e, ast.Call) and call_name(e) in ("sorted", "list", "tuple", "reversed", "set", "frozenset") and e.args:
+                return verbatim(e.args[0], seen)
+            if isinstance(e, ast.Call) and call_name(e) == "filter" and len(e.args) == 2:
+                return verbatim(e.args[1], seen)
+            if isinstance(e, ast.IfExp):
+                return verbatim(e.body, seen) and verbatim(e.orelse, seen)
+            if isinstance(e, (ast.List, ast.Tuple)) and not e.elts:
+                return True
+            return False
+
+        for r in [n for n in walk_local(h) if isinstance(n, ast.Return) and n.value is not None] if h is not outer else []:
+            n_ret += 1
+            ok = verbatim(r.value)
+            ctx.ob("R6", f"{st}.{h.name}", f"`{short(r, 60)}` hands on directory entries as listed (a rewritten name - normalised, case-folded, stripped - is not the file's name)", ok, key=f"listing|{h.name}|entries-rewritten", where=loc(r))
+    if not n_ret:
+        raise AnchorMissing(f"{st}: a listing helper with os.listdir and a return")
+
 
 META = {
     "technique": "static analysis: lexer spelling tables and handlers -> token types, grammar exclusion set, regex syntax-tree character class; set inclusion; CFG dominance / reaching-definition (stale copy) check of the two quote emitters",
@@ -377,4 +431,5 @@ META = {
     "The string-level round trip and the analyser's totality are value properties and are not decided.",
     "note": "Decides the listed structural clause, not the behaviour. POSIX branch of the pattern is analysed. "
     "Known finding: `!` (BANG) is excluded from argument parts but does not trigger quoting.",
+    "more": "Also decided: the glob walker behind the path completer hands on os.listdir entries unmodified (the offered name is the file's name).",
 }
